@@ -42,7 +42,7 @@ def real_pairs():
 
 def cases(tier, seed):
     rng = np.random.default_rng([3, seed])
-    n = 260 if tier == "quick" else 8000
+    n = 260 if tier == "quick" else 20000
     out = []
     for j in range(n):
         cell_cls = planted.CELL_CLASSES[j % len(planted.CELL_CLASSES)]
@@ -306,7 +306,7 @@ def requirements(stats, tier):
         need.append("index-0 hints observed only %d times" % stats.get("hints_with_index_0"))
     if stats.nseen("real_pair_with_clear_matches") < 4:
         need.append("fewer than 4 real structure/pattern pairs with clear matches: %s" % sorted(stats.sets.get("real_pair_with_clear_matches", [])))
-    if stats.get("base_clear_groups") < (300 if tier == "quick" else 8000):
+    if stats.get("base_clear_groups") < (300 if tier == "quick" else 20000):
         need.append("too few clear base matches: %d" % stats.get("base_clear_groups"))
     if stats.nseen("synthetic_cell_class") < len(planted.CELL_CLASSES):
         need.append("not all cell classes observed")
